@@ -1,7 +1,8 @@
 """C07  PBIND conserves records and PLIST reports them truthfully.
 
-Generated domain: 1-4 synthetic code files (written by the independent writer vf.pfile, not by asl)
-x tool (pbind | plist) x command line variations.
+Generated domain: 1-4 code files (synthetic ones written by the independent writer vf.pfile; in
+about every tenth case one of them is a golden-corpus program assembled by asl and read back by the
+independent reader) x tool (pbind | plist) x command line variations.
 
 Oracles
   pbind: the output is parsed by the independent reader; its record SEQUENCE (cpu, segment,
@@ -22,7 +23,7 @@ from vf import c07gen as G
 from vf.gen import composite
 
 ID = "C07"
-RULE = ("case = tool (pbind|plist) x 1-4 generated code files (0-6 data records each: documented CPU ids of "
+RULE = ("case = tool (pbind|plist) x 1-4 generated code files (0-6, sometimes 16 data records each: documented CPU ids of "
         "all families incl. granularity 2/4 ones, a few undocumented ids $01..$7f, segments 0-9, short "
         "($01..$7f) and long ($81) header forms, long forms with the implied or with another granularity, "
         "lengths from {0,1,2,255,256,511,512,513,8191,8192,8193,16384,65535} and random, addresses 0..$ffffffff, "
@@ -49,7 +50,8 @@ ASSUMPTIONS = [
     "output is not judged",
     "pbind -q is taken as documented by 'calling conventions and variations are equivalent to those of AS' "
     "(utility-programs.md) and by the tool's own option table; -f is given at most once per run "
-    "(accumulation over several -f / BINDCMD plus command line is not documented)",
+    "(accumulation over several -f / BINDCMD plus command line is not documented); key files (@file on the "
+    "command line or in BINDCMD) are used as assembler-usage.md describes them: one line, switch and argument together",
     "plist: the family abbreviations are not defined by the manual; vf/c07gen.FAMILY pairs every id of the "
     "manual's table with the abbreviation(s) of that family (manual spelling accepted too); ids $34/$35 "
     "(manual lists $35 twice) and ids missing from the manual are generated but their family column is not judged",
@@ -67,7 +69,7 @@ PBIND_BUF = 8192
 
 
 def budget(tier):
-    return dict(examples=24000 if tier == "quick" else 400000, shards=16)
+    return dict(examples=12000 if tier == "quick" else 400000, shards=16)
 
 
 # ---------------------------------------------------------------- generator
